@@ -74,6 +74,14 @@ Theorem tree_history_observations : forall (K V : Type) (cmp : K -> K -> compari
 Proof. exact history_observations_total. Qed.
 Print Assumptions tree_history_observations.
 
+(* "lookups, insertions and removals stay logarithmic": the descent of Tree_Get/Mem/Set/Rem in a valid tree visits at
+   most 2*log2(len+1) nodes (integer form); Tree_Set_Fix / Tree_Rem_Fix recurse on the path this descent leaves *)
+Theorem tree_search_depth : forall (K V : Type) (cmp : K -> K -> comparison)
+  (t : rbt K V) (k : K) (x : tree K V) (p : path K V), rb_inv K V cmp t ->
+    descend K V cmp (root K V t) k [] = (x, p) -> 2 ^ length p <= (nitems K V t + 1) ^ 2.
+Proof. exact search_depth_total. Qed.
+Print Assumptions tree_search_depth.
+
 (* height bound from the red-black shape alone *)
 Theorem tree_height_bound : forall (K V : Type) (t : tree K V),
   rb_tree K V t -> 2 ^ height K V t <= (size K V t + 1) ^ 2.
@@ -144,3 +152,16 @@ Proof. vm_compute. repeat split. Qed.
 Example tree_rb_inv_example :
   rb_inv Z Z int_cmp (t_run Z Z int_cmp (firstn 10 ex_ops) (t_empty Z Z)).
 Proof. exact (proj1 (tree_refines_omap Z Z int_cmp int_cmp_total (firstn 10 ex_ops))). Qed.
+
+(* String keys (byte lists under strcmp order): prefixes, the empty string, bytes >= 0x80 *)
+Definition sset (k : list N) (v : Z) := TSet (list N) Z k v.
+Definition srem (k : list N) := TRem (list N) Z k.
+Definition sget (k : list N) := TGet (list N) Z k.
+Example tree_string_keys_example :
+  let ops := [sset [97%N] 1%Z; sset [] 2%Z; sset [97%N; 97%N] 3%Z; sset [255%N] 4%Z;
+              sset [128%N] 5%Z; sset [98%N] 6%Z; srem [97%N]; sget []; srem [97%N]] in
+  t_outs (list N) Z bytes_cmp ops (t_empty (list N) Z) =
+    [OUnit Z; OUnit Z; OUnit Z; OUnit Z; OUnit Z; OUnit Z; OUnit Z; OVal Z 2%Z; ORaise Z TKeyError] /\
+  iter_forward (list N) Z (t_run (list N) Z bytes_cmp ops (t_empty (list N) Z)) =
+    Ok [[255%N]; [128%N]; [98%N]; [97%N; 97%N]; []].
+Proof. vm_compute. split; reflexivity. Qed.
